@@ -4,9 +4,11 @@ package helpers
 
 import (
 	"bufio"
+	"context"
 	"encoding/json"
 	"errors"
 	"fmt"
+	"github.com/bradenaw/juniper/stream"
 	"math"
 	"math/rand"
 	"os"
@@ -532,6 +534,14 @@ func Rands(w *W, rng *rand.Rand, seeds int) {
 				w.call(Vec{Fn: "SampleIterator", X: n, Y: k}, func(v *Vec) {
 					v.Out = xrand.RSampleIterator(r, iterator.Slice(cp(a)), k)
 					v.R = distinctPositions(v.Out, n)
+				})
+				w.call(Vec{Fn: "SampleStream", X: n, Y: k}, func(v *Vec) {
+					out, err := xrand.RSampleStream(context.Background(), r, stream.FromIterator(iterator.Slice(cp(a))), k)
+					v.Out = out
+					v.R = distinctPositions(v.Out, n)
+					if err != nil {
+						v.R = 0
+					}
 				})
 			}
 		}
